@@ -19,14 +19,17 @@ type C10 struct{}
 
 func (C10) ID() string { return "C10" }
 func (C10) Rule() string {
-	return "scan half: rapid-generated trees (<=12 nodes, 1-3 roots; 1 in 4 single-root scenarios scan 1-3 explicitly requested paths) with 1-3 extractors (several wanting the same file), 0-2 standalone extractors, 0-2 detectors; per scenario: inode limits {1, V-1, V, V+1, one drawn value} around the measured visit count V, size limits {1, s-1, s, s+1} for every file size s present, and cancel() delivered at EVERY seam event k of the fault-free history plus 'cancelled before Scan'; 1 in 4 whole-tree scenarios run on a slow disk under the simulated clock (300-1500 ms per operation) so that the status ticker fires during the walk; image half (world I): layer archives with files of size L-1, L, L+1, 2L for MaxFileBytes=L; evaluation = one scan / one image load; non-trivial = work (an extraction on another file or a plugin run) remained after at least one cancellation instant; distinct = distinct scenario JSON"
+	return "scan half: rapid-generated trees (<=12 nodes, 1-3 roots; 1 in 4 single-root scenarios scan 1-3 explicitly requested paths) with 1-3 extractors (several wanting the same file), 0-2 standalone extractors, 0-2 detectors, 1 in 3 with .gitignore files and gitignore handling on; per scenario: inode limits {1, V-1, V, V+1, one drawn value} around the measured visit count V, size limits {1, s-1, s, s+1} for every file size s present, and cancel() delivered at EVERY seam event k of the fault-free history plus 'cancelled before Scan'; 1 in 4 whole-tree scenarios run on a slow disk under the simulated clock (300-1500 ms per operation) so that the status ticker fires during the walk; image half (world I): layer archives with files of size L-1, L, L+1, 2L for MaxFileBytes=L; evaluation = one scan / one image load; non-trivial = work (an extraction on another file or a plugin run) remained after at least one cancellation instant; distinct = distinct scenario JSON"
 }
 
 func (C10) Gen(rt *rapid.T, tier string) any {
 	cfg := &Config{CancelAt: -1}
 	nroots := rapid.SampledFrom([]int{1, 1, 1, 2, 3}).Draw(rt, "nroots")
+	// 1 in 3: .gitignore files in the trees and gitignore handling on (the limits and the
+	// cancellation then cut the walk short while the per-directory pattern stack is in use)
+	cfg.UseGitignore = rapid.IntRange(0, 2).Draw(rt, "usegitignore") == 2
 	for i := 0; i < nroots; i++ {
-		tree := genTree(rt, TreeOpts{MaxNodes: 12 / nroots, MaxDepth: 3, Symlinks: true, Specials: true, Gitignore: false, MaxSize: 60}, fmt.Sprintf("t%d", i))
+		tree := genTree(rt, TreeOpts{MaxNodes: 12 / nroots, MaxDepth: 3, Symlinks: true, Specials: true, Gitignore: cfg.UseGitignore, MaxSize: 60}, fmt.Sprintf("t%d", i))
 		cfg.Roots = append(cfg.Roots, RootSpec{Tree: tree})
 	}
 	cfg.Extractors = genExtractors(rt, 3, false)
@@ -150,8 +153,8 @@ func (C10) Run(t *testing.T, sc any) *sim.Outcome {
 				out.Violate("inode-limit-not-failed", "inode-limit-not-failed", "tree holds %d inodes, MaxInodes=%d, but overall status is %v; %s", V, L, o.Overall, ctxs)
 			}
 			// independent of what the engine counts: the trees hold treeInodes entries (directories,
-			// files, symlinks, special files; no skip rule is configured in this check)
-			if len(cfg.PathsToExtract) == 0 && treeInodes > L && o.Overall != plugin.ScanStatusFailed {
+			// files, symlinks, special files; only without gitignore handling, the one skip rule this check configures)
+			if len(cfg.PathsToExtract) == 0 && !cfg.UseGitignore && treeInodes > L && o.Overall != plugin.ScanStatusFailed {
 				out.Violate("inode-limit-not-failed", "inode-limit-not-failed:tree-count", "the scanned trees hold %d inodes (the engine counted %d), MaxInodes=%d, but overall status is %v; %s", treeInodes, V, L, o.Overall, ctxs)
 			}
 			if V <= L {
